@@ -42,7 +42,7 @@ TrReset ==
     /\ flags' = [stopped |-> FALSE, stopping |-> FALSE, aborted |-> FALSE, aborting |-> FALSE, inClosed |-> FALSE, reqClosed |-> FALSE]
     /\ err' = NIL
     /\ writer' = [pc |-> "select", buf |-> <<>>, inNil |-> FALSE, reqNil |-> FALSE, begin |-> NIL]
-    /\ toAgent' = [q |-> <<>>, closed |-> FALSE]
+    /\ toAgent' = [q |-> <<>>, closed |-> FALSE, stray |-> 0]
     /\ agent' = [seen |-> 0, restored |-> NIL, faulted |-> FALSE, fkind |-> NIL, alive |-> TRUE]
     /\ fromAgent' = [q |-> <<>>, closed |-> FALSE]
     /\ reader' = [pc |-> "read", msg |-> NIL, hasBegin |-> FALSE, begin |-> NIL, inBatch |-> FALSE, points |-> <<>>, pend |-> NIL]
@@ -123,6 +123,9 @@ ModelKind(k) == CASE k \in {"hugeLen", "garbage", "truncFrame"} -> "readerr"
                   [] k = "emptyFrame" -> "unknown"
                   [] k = "earlyClose" -> "close"
                   [] OTHER -> k
+\* the driver put a frame of its own into the server->agent byte stream, at a frame boundary: an empty request
+\* (one byte 0x00) or a keepalive request
+TrInject == IsEv("Inject") /\ Stray(Ln.kind) /\ Same
 \* the driver killed the peer (both pipes broken) at this point of the script
 TrPeerDies == IsEv("PeerDies") /\ AgentDies /\ Same
 TrBystander == IsEv("Bystander") /\ Ln.ok /\ UNCHANGED vars /\ Same
@@ -222,7 +225,7 @@ TrSilent ==
        \/ inq # <<>> /\ PumpOffer(MsgOf(Head(inq))) /\ inq' = Tail(inq)
     /\ UNCHANGED <<l, outObs, resObs, curCall, callActive, plan>>
 
-TrNext == TrReset \/ TrSend \/ TrQueue \/ TrFault \/ TrPeerDies \/ TrBystander \/ TrPumpDone \/ TrCall \/ TrStopCall \/ TrAbort
+TrNext == TrReset \/ TrSend \/ TrQueue \/ TrFault \/ TrInject \/ TrPeerDies \/ TrBystander \/ TrPumpDone \/ TrCall \/ TrStopCall \/ TrAbort
           \/ TrSent \/ TrRet \/ TrOut \/ TrOutClosed \/ TrStopRet \/ TrAgentSaw \/ TrDiag \/ TrNote \/ TrSilent
 TrSpec == TrInit /\ [][TrNext]_tvars
 
